@@ -147,6 +147,7 @@ struct Agg {
     exec_on_private: u64,
     exec_depth: [u64; 4],
     host_adds: u64,
+    host_mutations: u64,
     retained_alias: u64,
     root_alias: u64,
     scope_opens: u64,
@@ -264,6 +265,7 @@ fn cmd_batch(args: &[String]) {
             agg.exec_depth[i] += st.exec_in_scope_depth[i];
         }
         agg.host_adds += st.host_adds;
+        agg.host_mutations += st.host_mutations;
         agg.retained_alias += st.retained_alias_defines;
         agg.root_alias += st.root_alias_defines;
         agg.scope_opens += st.scope_opens;
@@ -352,6 +354,7 @@ fn cmd_batch(args: &[String]) {
         "exec_on_private_root": agg.exec_on_private,
         "exec_in_scope_depth": agg.exec_depth,
         "host_adds": agg.host_adds,
+        "host_in_place_mutations_of_retained_values": agg.host_mutations,
         "retained_alias_defines": agg.retained_alias,
         "root_alias_defines": agg.root_alias,
         "scope_opens": agg.scope_opens,
